@@ -1,10 +1,181 @@
-"""C19 - Re-batching conserves rows, order and column alignment (contracts are added in C19_contracts below)."""
+"""C19 - Re-batching conserves rows, order and column alignment.
+
+rebatched_args is verified for a fixed number of columns (variants k=1, k=2) and everything else
+symbolic: any number of input batches of any sizes, any target size. Row provenance: column c of the
+input stream is a global row sequence row(c, g); input batch t holds rows [S(c,t), S(c,t+1)). The
+postcondition says that emitted batch b holds exactly rows [b*B, b*B + len) of every column."""
+import z3
+from pyvc.contracts import Contract
+from pyvc.values import *   # pylint: disable=wildcard-import
+from pyvc.interp import pair_fst, pair_snd
+
+ITER = 'ml_metrics/_src/utils/iter_utils.py'
 P = 'C19'
+
+chunk_fn = [z3.Function(f'chunk{c}', z3.IntSort(), Obj) for c in range(2)]
+S_fn = [z3.Function(f'S{c}', z3.IntSort(), z3.IntSort()) for c in range(2)]
+row_fn = [z3.Function(f'row{c}', z3.IntSort(), Obj) for c in range(2)]
+
+
+def _stream(k):
+  def setup(it, env):
+    src = env['tuples']
+    src.fails = None
+    src.ret = None
+    for c in range(k):
+      it.assume(S_fn[c](0) == 0)
+
+    def wrap(p):
+      cols = []
+      for c in range(k):
+        ch = chunk_fn[c](p)
+        j = z3.Int(it.path.fresh_name('j'))
+        # definition of the row provenance of input batch p (column c)
+        it.assume(len_of(ch) >= 0)
+        it.assume(S_fn[c](p + 1) == S_fn[c](p) + len_of(ch))
+        it.assume(z3.ForAll([j], z3.Implies(z3.And(0 <= j, j < len_of(ch)), item_of(ch, j) == row_fn[c](S_fn[c](p) + j))))
+        cols.append(VOpaque(ch))
+      return VTuple(cols)
+    src.wrap_fn = wrap
+  return setup
 
 
 def register(R):
+  R.hasattr_hook = lambda it, v, name: False          # chunks are plain sized sequences (lists/tuples), not arrays
+
+  @R.spec
+  def S(it, a, k):
+    c = z3.simplify(it.to_int(a[0])).as_long()
+    return VInt(S_fn[c](it.to_int(a[1])))
+
+  @R.spec
+  def row(it, a, k):
+    c = z3.simplify(it.to_int(a[0])).as_long()
+    return VOpaque(row_fn[c](it.to_int(a[1])))
+
+  @R.spec
+  def item(it, a, k):
+    return VOpaque(item_of(it.to_obj(a[0]), it.to_int(a[1])))
+
+  @R.spec
+  def colof(it, a, k):          # column c of an emitted batch (a tuple stored in the ghost log)
+    x = it.to_obj(a[0])
+    c = z3.simplify(it.to_int(a[1])).as_long()
+    ncols = z3.simplify(it.to_int(a[2])).as_long()
+    for _ in range(c):
+      x = pair_snd(x)
+    if ncols == 2 and c == 1:
+      return VOpaque(x)
+    return VOpaque(pair_fst(x))
+
+  @R.spec
+  def catof(it, a, k):          # ghost concatenation of a buffer of chunks
+    b = a[0]
+    if isinstance(b, VList):
+      cat = it.empty_cat()
+      for x in b.items:
+        cat = it.cat_append(cat, x)
+      return cat
+    return b.cat
+
+  @R.spec
+  def sliceof(it, a, k):
+    from pyvc.builtins_ import _SLICE_OF
+    return VOpaque(_SLICE_OF(it.to_obj(a[0]), it.to_int(a[1]), it.to_int(a[2])))
+
+  # library-backed helpers: assumed contracts (A2/A3), not proved
+  def _concat_result(it, env2, old):
+    data = env2['data']
+    if getattr(data, 'cat', None) is not None:
+      return data.cat
+    if isinstance(data, VList):
+      cat = it.empty_cat()
+      for x in data.items:
+        cat = it.cat_append(cat, x)
+      return cat
+    return None
+  R.add(Contract(f'{ITER}::_concat', 'trusted', types=dict(data='list[obj]'), ret='sized', post_hook=_concat_result,
+                 note='ASSUMED: concatenation of the buffered chunks in order (np.concatenate / mit.flatten)'))
+  R.add(Contract(f'{ITER}::_pad', 'trusted', types=dict(data='sized', pad='obj', batch_size='int'), ret='sized',
+                 ensures=['len(result) == batch_size',
+                          'forall(lambda j: item(result, j) is item(data, j), 0, len(data))',
+                          'forall(lambda j: item(result, j) is pad, len(data), batch_size)'],
+                 note='ASSUMED: np.pad / mit.padded append `pad` up to batch_size'))
+
+  for k, padded in ((2, False), (1, False), (2, True), (1, True)):
+    cols = range(k)
+    both = lambda tmpl: [tmpl.format(c=c, k=k) for c in cols]
+    # an emitted batch is full, except the final one of an exhausted stream (which is padded to full size when padding)
+    if padded:
+      OUT_FULL = both('forall(lambda b: len(colof(out[b], {c}, {k})) == batch_size, 0, len(out))')
+      REAL = 'ite(exhausted, S({c}, tuples.pos), len(out) * batch_size)'
+      OUT_ROWS = both('forall(lambda b, j: implies(0 <= b and b < len(out) and 0 <= j and j < batch_size and b * batch_size + j < ' + REAL + ','
+                      ' item(colof(out[b], {c}, {k}), j) is row({c}, b * batch_size + j)))') + \
+                 both('forall(lambda b, j: implies(0 <= b and b < len(out) and 0 <= j and j < batch_size and b * batch_size + j >= ' + REAL + ','
+                      ' item(colof(out[b], {c}, {k}), j) is pad))')
+      DONE = both('implies(exhausted, (len(out) - 1) * batch_size < S({c}, tuples.pos) or (len(out) == 0 and S({c}, tuples.pos) == 0))') + \
+             both('implies(exhausted, S({c}, tuples.pos) <= len(out) * batch_size)')
+    else:
+      OUT_FULL = both('forall(lambda b: len(colof(out[b], {c}, {k})) == batch_size or (exhausted and b == len(out) - 1 and'
+                      ' 0 < len(colof(out[b], {c}, {k})) and len(colof(out[b], {c}, {k})) <= batch_size), 0, len(out))')
+      OUT_ROWS = both('forall(lambda b, j: implies(0 <= b and b < len(out) and 0 <= j and j < len(colof(out[b], {c}, {k})),'
+                      ' item(colof(out[b], {c}, {k}), j) is row({c}, b * batch_size + j)))')
+      DONE = both('implies(exhausted, ite(len(out) == 0, 0, (len(out) - 1) * batch_size + len(colof(out[len(out) - 1], {c}, {k})))'
+                  ' == S({c}, tuples.pos))')
+    ALIGN = ['forall(lambda b: len(colof(out[b], 0, 2)) == len(colof(out[b], 1, 2)), 0, len(out))'] if k == 2 else []
+    OUTER = (['last_columns is None', '0 <= tuples.pos and tuples.pos <= len(tuples.src)', 'batch_size >= 1',
+              '0 <= batch_sizes[0] and batch_sizes[0] < batch_size',
+              'implies(exhausted, batch_sizes[0] == 0 and tuples.pos == len(tuples.src))']
+             + (['batch_sizes[0] == batch_sizes[1]'] if k == 2 else [])
+             + both('len(catof(column_buffer[{c}])) == batch_sizes[{c}]')
+             # rows consumed = rows emitted + rows buffered
+             + both('implies(not exhausted, len(out) * batch_size + batch_sizes[{c}] == S({c}, tuples.pos))')
+             + both('forall(lambda j: item(catof(column_buffer[{c}]), j) is row({c}, len(out) * batch_size + j), 0, batch_sizes[{c}])')
+             + OUT_FULL + OUT_ROWS + ALIGN + DONE)
+    INNER_ROWS = [c_.replace('exhausted', 'False') for c_ in OUT_ROWS]
+    INNER = (['batch_size >= 1', 'batch_sizes[0] >= 1', '(idx_columns == 0) == (last_columns is None)', 'idx_columns >= 0',
+              '0 <= tuples.pos and tuples.pos <= len(tuples.src)',
+              'implies(exhausted, tuples.pos == len(tuples.src))']
+             + (['batch_sizes[0] == batch_sizes[1]'] if k == 2 else [])
+             + both('len(concated[{c}]) == batch_sizes[{c}]')
+             + both('(len(out) - ite(idx_columns >= 1, idx_columns - 1, 0)) * batch_size + batch_sizes[{c}] == S({c}, tuples.pos)')
+             + both('forall(lambda j: item(concated[{c}], j) is row({c}, (len(out) - ite(idx_columns >= 1, idx_columns - 1, 0)) * batch_size + j),'
+                    ' 0, batch_sizes[{c}])')
+             + both('implies(idx_columns >= 1, len(last_columns[{c}]) == ite(batch_sizes[{c}] - (idx_columns - 1) * batch_size < batch_size,'
+                    ' batch_sizes[{c}] - (idx_columns - 1) * batch_size, batch_size) and len(last_columns[{c}]) >= 1)')
+             + both('implies(idx_columns >= 1, forall(lambda j: item(last_columns[{c}], j) is item(concated[{c}], (idx_columns - 1) * batch_size + j),'
+                    ' 0, len(last_columns[{c}])))')
+             + both('forall(lambda b: len(colof(out[b], {c}, {k})) == batch_size, 0, len(out))') + INNER_ROWS + ALIGN)
+    retype = {'last_columns': 'tuple[' + ','.join(['sized'] * k) + ']?'}
+    final = lambda cs: [c_.replace('exhausted', 'True').replace('tuples.pos', 'len(tuples.src)') for c_ in cs]
+    if padded:
+      ENS = (['forall(lambda b: len(colof(out[b], 0, %d)) == batch_size, 0, len(out))' % k,
+              # conservation: ceil(total / B) batches, an empty stream emits nothing
+              '(len(out) - 1) * batch_size < S(0, len(tuples.src)) or (len(out) == 0 and S(0, len(tuples.src)) == 0)',
+              'S(0, len(tuples.src)) <= len(out) * batch_size'])
+    else:
+      ENS = ['forall(lambda b: len(colof(out[b], 0, %d)) == batch_size, 0, len(out) - 1)' % k,
+             'implies(len(out) > 0, 0 < len(colof(out[len(out) - 1], 0, %d)) and len(colof(out[len(out) - 1], 0, %d)) <= batch_size)' % (k, k),
+             'ite(len(out) == 0, 0, (len(out) - 1) * batch_size + len(colof(out[len(out) - 1], 0, %d))) == S(0, len(tuples.src))' % k]
+    R.add(Contract(
+        f'{ITER}::rebatched_args', P, variant=f'{k}-column' + ('s' if k > 1 else '') + ('-padded' if padded else ''),
+        types=dict(tuples='iter[obj]', batch_size='int', num_columns=f'const:{k}', pad='obj' if padded else 'none'), yields='obj', setup=_stream(k),
+        modifies=['tuples'],
+        requires=['batch_size >= 1', 'tuples.pos == 0'],
+        may_raise=['ValueError'],
+        # sizes and conservation; alignment (equal column lengths); order: row j of emitted batch b is global row
+        # b*B + j of its column (and, when padding, only positions past the last row hold the pad value)
+        ensures=ENS + ALIGN + final(OUT_ROWS),
+        loops={0: dict(invariant=OUTER, retype=retype, havoc_objs=[]),
+               # loop 1 (for i, column in enumerate(batch)) is unrolled: the number of columns is concrete
+               2: dict(invariant=INNER, retype=retype)},
+        bounded='bounded_rebatch',
+        note='chunks are sized sequences without __array__ (lists/tuples); the number of columns is fixed per variant'))
+
   R.bounded_checks[P] = [
       ('bounded_rebatch', 'rebatched_args: all input size sequences (<=4 batches of 0..4 rows), targets 1..5, 1-2 columns, list/tuple/array/2-D array, padding, given/inferred column count'),
       ('bounded_treefn_rebatch', 'TreeFn fn_batch_size/batch_size on streams incl. empty ones'),
   ]
-  R.trusted[P] = ['bounded: small-scope hypothesis on the number and sizes of input batches']
+  R.trusted[P] = ['A2 more_itertools.sliced (slice t = seq[t*n:(t+1)*n], ceil(len/n) slices), zip(strict=True)',
+                  'ASSUMED contracts of _concat and _pad (library-backed: np.concatenate / mit.flatten / np.pad / mit.padded)',
+                  'A3 numpy int counters as integer vectors', 'the number of columns is fixed per verified variant (1 and 2)', 'A7 pyvc engine, z3, cvc5']
